@@ -258,11 +258,11 @@ func handleObjectWithAssociation(metaBkt *bbolt.Bucket, diff *CountersDiff, curr
 			if err == nil {
 				if inGarbage(metaCursor, id) == statusAvailable {
 					inhumed++
-				}
-				// if object is stored, and it is regular object then update bucket
-				// with container size estimations
-				if obj.Type() == object.TypeRegular {
-					diff.Payload -= int64(obj.PayloadSize())
+					// if object is stored and gets its mark now then update
+					// container size estimations
+					if string(getObjAttribute(metaCursor, id, object.FilterPhysical)) == binPropMarker {
+						diff.Payload -= int64(obj.PayloadSize())
+					}
 				}
 			}
 			err = metaBkt.Put(mkGarbageKey(id), nil)
